@@ -35,8 +35,10 @@ pub fn run(only: &[String]) -> Vec<String> {
     let eg: EGraph<UL, ()> = EGraph::default();
     let mut rng = Rng(0x5107_7ed);
     let mut nf = [0usize; 3];
-    for _ in 0..30000 {
-        let n = 1 + rng.next(4) as usize;
+    // thorough tier (VERIF_BOUNDED_DEEP): 300000 forests over at most 6 ids
+    let deep = std::env::var("VERIF_BOUNDED_DEEP").is_ok();
+    for _ in 0..(if deep { 300000 } else { 30000 }) {
+        let n = 1 + rng.next(if deep { 6 } else { 4 }) as usize;
         // slots of each class
         let slots: Vec<Vec<u32>> = (0..n).map(|_| (0..3).filter(|_| rng.next(2) == 0).collect()).collect();
         let mut forest: Vec<(usize, M)> = Vec::new();
